@@ -41,7 +41,7 @@ impl Prop for C03 {
         ]
     }
     fn cases(tier: Tier) -> u32 {
-        tier.pick(3_000, 100_000)
+        tier.pick(3_000, 400_000)
     }
     fn strategy(tier: Tier) -> BoxedStrategy<Case> {
         (bf_case(params(tier), 60), 1u32..1000, 1u32..1000)
